@@ -54,6 +54,23 @@ def run(prop, tier, seed, ctx):
                 json.dumps({k: m["observed"].get(k) for k in mine + ["error"]}, default=repr)[:300],
                 json.dumps({k: m["expected"].get(k) for k in mine}, default=repr)[:200]), m)
     ctx.cov["exhaustive"] = True
+    if prop in ("C05", "C15"):
+        # every sandbox execution of the repository's own test-suite, recorded through the guarded hooks
+        from engine.suite import record_suite
+        led = record_suite()["ledger"]
+        if len(led) < 50:
+            raise MachineryError("only %d sandbox traces recorded from the test-suite" % len(led))
+        evs = [[{k: v for k, v in e.items() if k != "test"} for e in t["events"]] for t in led]
+        acc, rej, tres = tlc.validate_traces("TraceLedger", "TraceLedger.cfg", evs, timeout=600)
+        ctx.add_tlc(tres, "ledger / stack contract on %d sandboxes used by the repository's own test-suite" % len(led))
+        ctx.cov["traces_validated_against_impl"] += len(led)
+        for tid, pos, mask in rej:
+            m = int(mask)
+            ev = led[tid - 1]["events"][pos - 1]
+            if prop == "C15" and m & 3:
+                ctx.violation("C15|suite|%s" % ("raw" if m & 1 else "lines"), "execution %d of a sandbox in %s: ledger clause fails" % (pos, ev.get("test")), led[tid - 1])
+            if prop == "C05" and m & 4:
+                ctx.violation("C05|suite|stacks", "execution %d of a sandbox in %s leaves patches=%s stdouts=%s" % (pos, ev.get("test"), ev.get("patches"), ev.get("stdouts")), led[tid - 1])
     for mcfg, inv in MUTANTS[prop]:
         mres = tlc.run("Sandbox", mcfg, workers=8, timeout=600)
         if inv not in mres.violated:
